@@ -1,5 +1,6 @@
 import Driver.Common
 import Sourmash.Model.HLL
+import Sourmash.Model.HLLFloat
 import Sourmash.Model.MinHash
 import Sourmash.Model.Scaled
 import Sourmash.Model.Murmur
@@ -11,7 +12,13 @@ every slot carries the register array the specification assigns to the multiset 
 slot has received so far — `HllSpec.regs`, continued with `HllSpec.accum` over whatever arrives
 later (directly, from a MinHash's mins, from a sequence's k-mers, by merge, through a save/load).
 The two columns use different arithmetic: shifts / `leading_zeros` (model) against `%` / a search
-for the first set bit (spec). -/
+for the first set bit (spec).
+
+Estimates (`card`, `est`): a sketch's estimates are a function of its registers and nothing else.
+Model column = the binary64 transcription of the estimator (`Model/HLLFloat.lean`, the one C18
+compares bit for bit) on the MODEL's current registers; spec column = the same estimator on the
+SPEC's current registers (the max-ρ-per-bucket array of everything the slot received so far) — an
+answer computed before the latest add / update / merge / load does not pass. -/
 open Driver Hll
 
 /-- what the specification knows about a slot: the parameters it was created with and the
@@ -169,13 +176,17 @@ def mergeStep (st : St) (op : String) (d s : Nat) : St × Resp :=
     let s' := match compat, st.s[d]!, st.s[s]! with
       | some true, some sd, some ss => st.s.set! d (some { sd with regs := HllSpec.mergeRegs sd.regs ss.regs })
       | _, _, _ => st.s
-    let okWord := if op == "refused" then "merged" else "ok"
-    let specCol := match compat with
-      | some true => okWord
-      | some false => if op == "refused" then "refused unchanged" else "-"
-      | none => "-"
+    -- `merge` / `mergeffi` also report the receiver's number of non-zero registers afterwards: the
+    -- specification's value is that of the register-wise max, WHATEVER way the argument came into
+    -- being (built by add_hash, loaded from a file, cloned, converted from a MinHash)
+    let okWord (nz : Nat) := if op == "refused" then "merged" else s!"ok nz={nz}"
+    let specCol := match compat, s'[d]! with
+      | some true, some sd => okWord (nzSpec sd)
+      | some true, none => "-"
+      | some false, _ => if op == "refused" then "refused unchanged" else "-"
+      | none, _ => "-"
     match x.merge y with
-    | .ok z => ({ m := st.m.set! d (some z), s := s' }, { model := okWord, spec := specCol })
+    | .ok z => ({ m := st.m.set! d (some z), s := s' }, { model := okWord (nzH z), spec := specCol })
     | .error e => ({ st with s := s' },
                    { model := if op == "refused" then "refused unchanged" else "err " ++ e.name, spec := specCol })
   | _, _ => (st, { model := "none" })
@@ -195,6 +206,36 @@ def roundTrip (st : St) (d s : Nat) (fmtH : H → String) (fmtS : SpecSlot → S
     | .error e => ({ m := st.m.set! d none, s := st.s.set! d none },
                    { model := loadErrName e, spec := specCol })
   | none => (st, { model := "none" })
+
+def fbits (f : Float) : String := if f.isNaN then "nan" else hex16 f.toBits
+
+/-- the sketch value the specification's register array stands for -/
+def SpecSlot.toH (s : SpecSlot) : H :=
+  { p := s.p, q := 64 - s.p, ksize := s.k, regs := s.regs.map UInt8.ofNat }
+
+/-- the answer of `est a b api|ffi` from two sketch values -/
+def estOf (api : String) (a b : H) : Option String :=
+  let t := tripleG F.mleIter a b
+  if t.1 + t.2.1 + t.2.2 ≥ 2 ^ 64 then none else
+  let tail := s!"i={t.2.2} s={fbits (similarityG F.mleIter a b)} c={fbits (containmentG F.mleIter a b)}"
+  some (if api == "ffi" then tail else s!"u={t.1 + t.2.1 + t.2.2} " ++ tail)
+
+/-- the code as it is: `only_a + only_b + intersection` is a `usize` addition.  When the estimates
+    saturate (`mle` returns +∞ → `usize::MAX`; that takes sketches whose registers sit at q+1, i.e.
+    hashes below 2^p, nothing a hash function produces) the sum overflows: with overflow checks (the
+    harness build) `union` / `similarity` (and `containment` when `only_a + intersection` overflows
+    too) panic — `PANIC` natively; behind the C entry points the landing pad swallows the panic and
+    hands back a zeroed result (0.0) without recording an error (no panic hook is installed by the
+    harness); a release build wraps around.  The specification says nothing there. -/
+def estModel (api : String) (a b : H) : String :=
+  match estOf api a b with
+  | some r => r
+  | none =>
+    if api == "ffi" then
+      let t := tripleG F.mleIter a b
+      let c := if t.1 + t.2.2 ≥ 2 ^ 64 then fbits 0.0 else fbits (containmentG F.mleIter a b)
+      s!"i={t.2.2} s={fbits 0.0} c={c}"
+    else "PANIC"
 
 def stepC17 (st : St) (ws : List String) : St × Resp :=
   let slot (w : String) : Nat := w.toNat!
@@ -256,6 +297,29 @@ def stepC17 (st : St) (ws : List String) : St × Resp :=
     let h := (H.empty 14 21).update (modelMins "vec" num mx false hs)
     let sp : SpecSlot := { p := 14, k := 21, regs := HllSpec.regs 14 (specMins num mx hs) }
     ({ m := st.m.set! d (some h), s := st.s.set! d (some sp) }, { model := digestH h, spec := digestSpec sp })
+  | ["clone", d, s] =>
+    let d := slot d; let s := slot s
+    match st.m[s]! with
+    | some x =>
+      ({ m := st.m.set! d (some x), s := st.s.set! d st.s[s]! },
+       { model := digestH x ++ " same=true",
+         spec := match st.s[s]! with | some sp => digestSpec sp ++ " same=true" | none => "-" })
+    | none => (st, { model := "none" })
+  | ["card", d, _api] =>
+    let d := slot d
+    match st.m[d]! with
+    | some h => (st, { model := toString (F.cardinality h),
+                       spec := match st.s[d]! with | some sp => toString (F.cardinality sp.toH) | none => "-" })
+    | none => (st, { model := "none" })
+  | ["est", a, b, api] =>
+    let a := slot a; let b := slot b
+    match st.m[a]!, st.m[b]! with
+    | some x, some y =>
+      (st, { model := estModel api x y,
+             spec := match st.s[a]!, st.s[b]! with
+               | some sa, some sb => (estOf api sa.toH sb.toH).getD "-"
+               | _, _ => "-" })
+    | _, _ => (st, { model := "none" })
   | ["show", d] =>
     let d := slot d
     match st.m[d]! with
